@@ -14,7 +14,7 @@ G, MREF, U = ['g0', 'g1', 'g2'], ['m0', 'm1', 'm2'], ['u0', 'u1', 'u2']
 DRAW = {k: [f'{k}{i}{j}' for i in range(N) for j in range(3)] for k in ('ng', 'na', 'nm', 'nd', 'ne')}
 SIG = ['sg', 'sa', 'sm']
 ALL_DRAWS = U + DRAW['ng'] + DRAW['na'] + DRAW['nm'] + DRAW['nd'] + DRAW['ne']
-TAG_MAG0 = 'Sensors.generate/mag-zero-noise-overridden'
+TAG_MAG0 = 'Sensors.generate/mag-noise-overridden'
 
 LEVEL_TEXT = ("Coq theorems over the regenerated model of the whole Sensors(...) construction (constructor + generate(), the "
               "module-level random generator replaced by a stream of symbolic draws) for a generic three-row trajectory, both "
@@ -107,13 +107,368 @@ def targets():
     ]
 
 
-STAGES = []
-ORACLES = {}
+
+STAGES = [['C20_spec.v'],
+          ['C20_acc.v', 'C20_mag.v', 'C20_magnorm.v', 'C20_gyro_rad.v', 'C20_gyro_deg.v', 'C20_repr.v',
+           ('C20_refuted.v', {'finding': TAG_MAG0})],
+          ['C20.v']]
+
+
+# ------------------------------------------------------------------------------------------
+# the real implementation with a controlled generator state
+# ------------------------------------------------------------------------------------------
+def _mod():
+    import ahrs.utils.sensors as M
+    return M
+
+
+def _reseed(seed):
+    """put the module-level numpy Generator of the REAL package into the state default_rng(seed) starts in
+    (harness-side only; /repo is untouched)"""
+    _mod().GENERATOR.bit_generator.state = np.random.default_rng(int(seed)).bit_generator.state
+
+
+def _draws(seed, n, skip=None):
+    """the values generate() will draw for a given-quaternion trajectory of n rows after _reseed(seed):
+    bias uniforms, then gyr/acc/mag/mag_nd/mag_enu normal draws, in the call order of the code"""
+    g = np.random.default_rng(int(seed))
+    if skip is not None:
+        g.bit_generator.state = skip
+    out = {'u': g.random(3)}
+    for k in ('ng', 'na', 'nm', 'nd', 'ne'):
+        out[k] = g.standard_normal((n, 3))
+    return out
+
+
+def _impl_given(c, seed, what, **kw):
+    import ahrs
+    _reseed(seed)
+    Q = np.array([[c[x] for x in r] for r in QR])
+    args = dict(gyr_noise=c.get('sg', 0.25), acc_noise=c.get('sa', 0.125), mag_noise=c['sm'],
+                reference_magnetic_vector=np.array([c[x] for x in MREF]))
+    if 'g0' in c:
+        args['reference_gravitational_vector'] = np.array([c[x] for x in G])
+    s = ahrs.Sensors(quaternions=Q, freq=100.0, **args, **kw)
+    return what(s)
+
+
+def _impl_rand(c, seed, what, **kw):
+    import ahrs
+    M = _mod()
+    _reseed(seed)
+    ang = np.array([[c[x] for x in r] for r in AR])
+    saved = M.random_angpos
+    M.random_angpos = lambda **k: ang.copy()         # the trajectory source is external to the property
+    try:
+        args = dict(gyr_noise=0.25, acc_noise=c.get('sa', 0.125), mag_noise=c['sm'],
+                    reference_magnetic_vector=np.array([c[x] for x in MREF]))
+        if 'g0' in c:
+            args['reference_gravitational_vector'] = np.array([c[x] for x in G])
+        s = ahrs.Sensors(num_samples=N, freq=100.0, **args, **kw)
+    finally:
+        M.random_angpos = saved
+    return what(s)
+
+
+def _cases(ctx, n, names, rand=False):
+    """seeded cases: quaternion rows (mostly unit, some not normalised, one zero row), reference vectors (the package
+    defaults and random ones), noise levels on both sides of every gate (0, small, above ptp), and the generator's draws"""
+    M = _mod()
+    out, seeds = [], []
+    for k in range(n):
+        seed = int(ctx.rng.integers(1, 2**31))
+        d = _draws(seed, N)
+        c = {}
+        if rand:
+            ang = ctx.rng.uniform(-np.pi, np.pi, (N, 3))
+            if k % 5 == 0:
+                ang[1] = ang[0]
+            c.update(cm.d(AN, ang.reshape(-1)))
+        else:
+            Q = np.array([cm.rand_unit_quat(ctx.rng) for _ in range(N)])
+            if k % 7 == 1:
+                Q[:] = Q[0]                                  # stationary
+            if k % 7 == 2:
+                Q *= ctx.rng.uniform(0.1, 10, (N, 1))        # the constructor normalises
+            if k % 7 == 3:
+                Q = np.array([cm.axang_q([1, 2, 3], 0.01 * i) for i in range(N)])
+            if k == 11:
+                Q[1] = 0.0                                   # rejected: ValueError on both sides
+            c.update(cm.d(QN, Q.reshape(-1)))
+        mref = M.REFERENCE_MAGNETIC_VECTOR if k % 2 == 0 else ctx.rng.standard_normal(3) * 10 ** ctx.rng.uniform(-1, 4)
+        gref = M.REFERENCE_GRAVITY_VECTOR if k % 3 == 0 else ctx.rng.standard_normal(3) * 9.8
+        c.update(cm.d(MREF, mref)); c.update(cm.d(G, gref))
+        c['sg'] = [0.0, 0.3, 2.5][k % 3]
+        c['sa'] = [0.0, 0.05][k % 2]
+        c['sm'] = [0.0, 1e-3, 40.0, 1e6, 3e5][k % 5]
+        c.update(cm.d(U, d['u']))
+        for key in ('ng', 'na', 'nm'):
+            c.update(cm.d(DRAW[key], d[key].reshape(-1)))
+        out.append({x: c[x] for x in names})
+        seeds.append(seed)
+    return out, seeds
 
 
 def correspondence(ctx):
-    pass
+    n = ctx.n(24, 200)
+    T = {t.name: t for t in targets()}
+
+    def run(name, impl_fn, what, rand=False, **kw):
+        names = T[name].inputs
+        cases, seeds = _cases(ctx, n, names, rand)
+        key = {id(c): sd for c, sd in zip(cases, seeds)}
+        ctx.correspond(name, cases, (lambda c: impl_fn(c, key[id(c)], what, **kw)), tol_ulp=256)
+    run('C20_acc', _impl_given, lambda s: s.accelerometers)
+    run('C20_mag', _impl_given, lambda s: [s.magnetometers, s.mag_noise])
+    run('C20_mag_norm', _impl_given, lambda s: [s.magnetometers, s.mag_noise], normalized_mag=True)
+    run('C20_gyro_rad', _impl_given, lambda s: [s.gyroscopes, s.biases_gyroscopes, s.ang_vel], in_degrees=False)
+    run('C20_gyro_deg', _impl_given, lambda s: [s.gyroscopes, s.biases_gyroscopes, s.ang_vel], in_degrees=True)
+    run('C20_repr', _impl_given, lambda s: [np.asarray(s.quaternions), s.rotations, s.ang_pos])
+    run('C20_rand_acc', _impl_rand, lambda s: s.accelerometers, rand=True)
+    run('C20_rand_repr', _impl_rand, lambda s: [np.asarray(s.quaternions), s.rotations, s.ang_pos, s.ang_vel], rand=True)
+
+
+# ------------------------------------------------------------------------------------------
+# search oracle: the property statement evaluated on the implementation, N >= 10
+# ------------------------------------------------------------------------------------------
+def _trajectory(inp):
+    """given-quaternion trajectories of bounded rate, from a few named families"""
+    r = np.random.default_rng(int(inp['tseed']))
+    n, kind, th = int(inp['n']), inp['traj'], float(inp.get('theta', 0.05))
+    q = cm.rand_unit_quat(r) if kind != 'from-identity' else np.array([1.0, 0, 0, 0])
+    Q = [q]
+    axis = cm.unit(r.standard_normal(3))
+    for t in range(1, n):
+        if kind == 'stationary':
+            d = np.array([1.0, 0, 0, 0])
+        elif kind in ('const-axis', 'from-identity'):
+            d = cm.axang_q(axis, th)
+        elif kind == 'smooth':
+            axis = cm.unit(axis + 0.3 * r.standard_normal(3))
+            d = cm.axang_q(axis, th * r.uniform(0.2, 1.0))
+        elif kind == 'pause-then-turn':          # exact zeros in the rate, then motion
+            d = np.array([1.0, 0, 0, 0]) if t < n // 2 else cm.axang_q(axis, th)
+        elif kind == 'random-unit':
+            Q.append(cm.rand_unit_quat(r)); continue
+        else:
+            raise ValueError(kind)
+        Q.append(cm.unit(cm.qmul(Q[-1], d)))
+    Q = np.array(Q)
+    if inp.get('flip'):                            # q and -q are the same attitude: antipodal representative on some rows
+        Q[1::3] *= -1.0
+    return Q
+
+
+def _qangle(p, q):
+    return 2.0 * math.acos(min(1.0, abs(float(np.dot(p, q)))))
+
+
+def _euler_R(a):
+    cr, sr, cp, sp, cy, sy = math.cos(a[0]), math.sin(a[0]), math.cos(a[1]), math.sin(a[1]), math.cos(a[2]), math.sin(a[2])
+    Rx = np.array([[1, 0, 0], [0, cr, -sr], [0, sr, cr]])
+    Ry = np.array([[cp, 0, sp], [0, 1, 0], [-sp, 0, cp]])
+    Rz = np.array([[cy, -sy, 0], [sy, cy, 0], [0, 0, 1]])
+    return Rz @ Ry @ Rx
+
+
+def o_sensors(inp):
+    """one Sensors(...) construction: every clause of C20 on its public attributes"""
+    import ahrs
+    M = _mod()
+    E = 'Sensors'
+    n, seed = int(inp['n']), int(inp['seed'])
+    deg, nrm, freq = bool(inp.get('in_degrees')), bool(inp.get('normalized_mag')), inp.get('freq', 100.0)
+    kw = {}
+    for k_in, k_kw in (('sg', 'gyr_noise'), ('sa', 'acc_noise'), ('sm', 'mag_noise')):
+        if inp.get(k_in) is not None:
+            kw[k_kw] = inp[k_in]
+    if inp.get('in_degrees') is not None:
+        kw['in_degrees'] = deg
+    if inp.get('normalized_mag') is not None:
+        kw['normalized_mag'] = nrm
+    if inp.get('mref') is not None:
+        kw['reference_magnetic_vector'] = np.array(inp['mref'], float)
+    if inp.get('gref') is not None:
+        kw['reference_gravitational_vector'] = np.array(inp['gref'], float)
+    given = inp['kind'] == 'given'
+    _reseed(seed)
+    if given:
+        Q = _trajectory(inp)
+        form = inp.get('qform', 'array')
+        arg = Q.tolist() if form == 'list' else ahrs.QuaternionArray(Q) if form == 'QuaternionArray' else \
+            Q * 3.0 if form == 'scaled' else Q.copy()
+        s = ahrs.Sensors(quaternions=arg, freq=freq, **kw)
+        D = _draws(seed, n)
+    else:
+        s = ahrs.Sensors(num_samples=n, freq=freq, **kw)
+        Q, D = None, None
+    if inp.get('twice'):                     # a second construction must not depend on the first one's leftovers
+        _reseed(seed)
+        s = ahrs.Sensors(quaternions=arg, freq=freq, **kw) if given else ahrs.Sensors(num_samples=n, freq=freq, **kw)
+    dt = 1.0 / freq
+    gref = np.asarray(s.reference_gravitational_vector, float)
+    mref = np.asarray(s.reference_magnetic_vector, float)
+    qs, Rm, ap, av = (np.asarray(x, float) for x in (s.quaternions, s.rotations, s.ang_pos, s.ang_vel))
+    acc, mag, gyr, bias = (np.asarray(x, float) for x in (s.accelerometers, s.magnetometers, s.gyroscopes, s.biases_gyroscopes))
+    if not (qs.shape == (n, 4) and Rm.shape == (n, 3, 3) and ap.shape == (n, 3) and av.shape == (n, 3) and acc.shape == (n, 3)
+            and mag.shape == (n, 3) and gyr.shape == (n, 3) and bias.shape == (3,) and s.num_samples == n):
+        return {'tag': f'{E}/shapes', 'observed': [list(x.shape) for x in (qs, Rm, ap, av, acc, mag, gyr, bias)]}
+    if any(cm.bad(x) for x in (qs, Rm, ap, av, acc, mag, gyr, bias)):
+        return {'tag': f'{E}/non-finite', 'observed': 'nan/inf in outputs'}
+    # ---- representations agree
+    if given and cm.maxabs(qs, Q) > 1e-12:
+        return {'tag': f'{E}.quaternions/not-the-given-trajectory', 'observed': cm.maxabs(qs, Q)}
+    if cm.maxabs(np.linalg.norm(qs, axis=1), 1.0) > 1e-12:
+        return {'tag': f'{E}.quaternions/not-unit', 'observed': cm.maxabs(np.linalg.norm(qs, axis=1), 1.0)}
+    Rs = np.array([cm.Rspec(q) for q in qs])
+    i = int(np.argmax(np.abs(Rm - Rs).reshape(n, -1).max(axis=1)))
+    if cm.maxabs(Rm[i], Rs[i]) > 1e-12:
+        return {'tag': f'{E}.rotations/not-matrix-of-quaternion', 'observed': Rm[i], 'expected': Rs[i], 'note': f'row {i}'}
+    for i in range(n):
+        lim = 1e-9 / max(1e-3, abs(math.cos(ap[i, 1])))
+        if abs(math.cos(ap[i, 1])) > 1e-6 and cm.maxabs(_euler_R(ap[i]), Rs[i]) > lim:
+            return {'tag': f'{E}.ang_pos/not-angles-of-quaternion', 'observed': _euler_R(ap[i]), 'expected': Rs[i], 'note': f'row {i}'}
+    # ---- accelerometers / magnetometers
+    body = lambda v: np.array([Rs[i].T @ v for i in range(n)])
+    for name, val, ref, lvl_req, lvl_rep, key in (('acc', acc, gref, inp.get('sa'), s.acc_noise, 'na'),
+                                                  ('mag', mag, mref, inp.get('sm'), s.mag_noise, 'nm')):
+        sc = max(1e-300, float(np.linalg.norm(ref)))
+        clean = body(ref)
+        if lvl_req is not None and np.ndim(lvl_rep) == 0 and float(lvl_rep) != float(lvl_req):
+            tag = TAG_MAG0 if name == 'mag' else f'{E}.generate/{name}-noise-attribute-not-the-requested'
+            return {'tag': tag, 'observed': float(lvl_rep), 'expected': float(lvl_req),
+                    'note': f'requested {name}_noise is replaced; residual {cm.maxabs(val, clean):.6g}'}
+        lvl = float(lvl_rep)
+        if name == 'mag' and nrm:
+            nr = np.linalg.norm(val, axis=1)
+            if cm.maxabs(nr, 1.0) > 1e-12:
+                return {'tag': f'{E}.generate/mag-normalised-not-unit', 'observed': cm.maxabs(nr, 1.0)}
+            if lvl == 0.0:
+                exp = clean / np.linalg.norm(clean, axis=1, keepdims=True)
+                if cm.maxabs(val, exp) > 1e-12:
+                    return {'tag': f'{E}.generate/mag-normalised-zero-noise', 'observed': cm.maxabs(val, exp)}
+            elif D is not None:
+                raw = clean + D[key] * lvl
+                exp = raw / np.linalg.norm(raw, axis=1, keepdims=True)
+                if cm.maxabs(val, exp) > 1e-9:
+                    return {'tag': f'{E}.generate/mag-normalised-noise', 'observed': cm.maxabs(val, exp)}
+            continue
+        res = val - clean
+        i = int(np.argmax(np.abs(res).max(axis=1)))
+        if lvl == 0.0:
+            if cm.maxabs(res) > 1e-12 * sc:
+                return {'tag': f'{E}.generate/{name}-zero-noise-not-body-frame-reference', 'observed': val[i], 'expected': clean[i],
+                        'note': f'row {i} of {n}'}
+        elif D is not None:
+            if cm.maxabs(res, D[key] * lvl) > 1e-9 * max(sc, lvl):
+                # the draws may legitimately be consumed in another order: fall back to a distribution bound
+                z = res / lvl
+                if abs(z.mean()) > 6 / math.sqrt(z.size) or not (1 - 6 / math.sqrt(2 * z.size) < z.std() < 1 + 6 / math.sqrt(2 * z.size)) \
+                        or abs(z).max() > 7:
+                    return {'tag': f'{E}.generate/{name}-noise-not-the-reported-level', 'observed': [float(z.mean()), float(z.std())],
+                            'expected': [0.0, 1.0], 'note': f'reported {name}_noise = {lvl}'}
+        else:
+            z = res / lvl
+            if abs(z.mean()) > 6 / math.sqrt(z.size) or not (1 - 6 / math.sqrt(2 * z.size) < z.std() < 1 + 6 / math.sqrt(2 * z.size)) \
+                    or abs(z).max() > 7:
+                return {'tag': f'{E}.generate/{name}-noise-not-the-reported-level', 'observed': [float(z.mean()), float(z.std())],
+                        'expected': [0.0, 1.0], 'note': f'reported {name}_noise = {lvl}'}
+    # ---- ground-truth angular velocity = what angular_velocities computes on consecutive attitudes
+    w = np.array([2.0 / dt * cm.qmul(cm.qconj(qs[t - 1]), qs[t])[1:] for t in range(1, n)])
+    wsc = max(1.0, float(np.abs(w).max()))
+    if cm.maxabs(av[1:], w) > 1e-12 * wsc * max(1.0, freq / 100):
+        i = int(np.argmax(np.abs(av[1:] - w).max(axis=1))) + 1
+        return {'tag': f'{E}.ang_vel/not-rate-between-consecutive-attitudes', 'observed': av[i], 'expected': w[i - 1], 'note': f'row {i}'}
+    first = np.zeros(3) if given else w[0]
+    if cm.maxabs(av[0], first) > 1e-12 * wsc:
+        return {'tag': f'{E}.ang_vel/first-row', 'observed': av[0], 'expected': first}
+    # ---- gyroscopes: bias-corrected samples are the true rates (in the output unit) plus the reported noise
+    unit = 180.0 / math.pi if deg else 1.0
+    nsc = 1.0 if deg else math.pi / 180.0            # gyr_noise is a level in deg/s
+    sg_req = inp.get('sg')
+    if sg_req is not None and (np.ndim(s.gyr_noise) != 0 or float(s.gyr_noise) != float(sg_req)):
+        return {'tag': f'{E}.generate/gyr-noise-attribute-not-the-requested', 'observed': s.gyr_noise, 'expected': sg_req}
+    corrected = gyr - bias
+    res = corrected - unit * av
+    gsc = unit * wsc
+    P = float(np.ptp(av * (180.0 / math.pi)))
+    blim = P / 400.0 * (1.0 if deg else (math.pi / 180.0) ** 2)
+    if np.abs(bias).max() > blim * (1 + 1e-12) + 1e-300:
+        return {'tag': f'{E}.generate/bias-outside-the-stated-range', 'observed': bias, 'expected': f'|b| <= {blim}'}
+    if sg_req is not None and float(sg_req) == 0.0:
+        if cm.maxabs(res) > 1e-11 * gsc:
+            i = int(np.argmax(np.abs(res).max(axis=1)))
+            return {'tag': f'{E}.generate/reported-bias-is-not-the-applied-bias', 'observed': corrected[i], 'expected': unit * av[i],
+                    'note': f'row {i}; reported bias {bias.tolist()}'}
+    elif D is not None and sg_req is not None:
+        expb = (D['u'] - 0.5) * P / 200.0 * (1.0 if deg else (math.pi / 180.0) ** 2)
+        if cm.maxabs(bias, expb) > 1e-9 * max(1e-300, blim) and cm.maxabs(res, D['ng'] * float(sg_req) * nsc) > 1e-9 * max(gsc, float(sg_req)):
+            z = res / (float(sg_req) * nsc)
+            if abs(z.mean()) > 6 / math.sqrt(z.size) or not (1 - 6 / math.sqrt(2 * z.size) < z.std() < 1 + 6 / math.sqrt(2 * z.size)):
+                return {'tag': f'{E}.generate/gyr-noise-or-bias-not-the-reported', 'observed': [float(z.mean()), float(z.std())], 'expected': [0.0, 1.0]}
+        elif cm.maxabs(res, D['ng'] * float(sg_req) * nsc) > 1e-9 * max(gsc, float(sg_req)):
+            i = int(np.argmax(np.abs(res - D['ng'] * float(sg_req) * nsc).max(axis=1)))
+            return {'tag': f'{E}.generate/reported-bias-is-not-the-applied-bias', 'observed': corrected[i],
+                    'expected': unit * av[i] + D['ng'][i] * float(sg_req) * nsc, 'note': f'row {i}'}
+    # ---- integrating the bias-corrected, noise-free gyroscope from the first attitude reproduces the trajectory
+    if sg_req is not None and float(sg_req) == 0.0:
+        th = np.array([_qangle(qs[t - 1], qs[t]) for t in range(1, n)])
+        if th.size and th.max() <= 1.0 and not inp.get('flip'):     # sign jumps: the quaternion curve has no bounded rate
+            est = ahrs.filters.AngularRate(gyr=corrected / unit, q0=qs[0].copy(), frequency=float(freq))
+            Qh = np.asarray(est.Q, float)
+            bound = np.concatenate([[0.0], np.cumsum(th ** 3 / 24.0)])
+            for t in range(n):
+                dist = _qangle(Qh[t], qs[t])
+                if dist > bound[t] * (1 + 1e-6) + 2e-7:
+                    return {'tag': f'{E}+AngularRate/re-integration-leaves-the-trajectory', 'observed': dist, 'expected': f'<= {bound[t]}',
+                            'note': f'sample {t} of {n}; max step angle {th.max():.4g} rad'}
+    return None
+
+
+ORACLES = {'sensors': o_sensors}
+WITNESS_MAG0 = {'kind': 'given', 'traj': 'stationary', 'n': 10, 'tseed': 1, 'seed': 7, 'sg': 0.0, 'sa': 0.0, 'sm': 0.0,
+                'in_degrees': False, 'normalized_mag': False}
+
+
+def sens_call(inp):
+    from vlib.core import call_outcome
+    r = call_outcome(o_sensors, inp)
+    if r[0] == 'raise':
+        return {'tag': f"Sensors/raises-{r[1]}", 'observed': list(r[1:])}
+    return r[1]
 
 
 def search(ctx, scale):
-    pass
+    M = _mod()
+    r = ctx.rng
+    sizes = [10, 11, 12, 13, 16, 20, 25, 32, 50, 51, 64, 100]
+    trajs = ['const-axis', 'smooth', 'stationary', 'pause-then-turn', 'from-identity', 'random-unit']
+    k = 0
+    for rep in range(5 * scale):
+        for traj in trajs:
+            for deg in (False, True):
+                for nrm in (False, True):
+                    k += 1
+                    n = sizes[k % len(sizes)] if scale == 1 or k % 3 else int(r.integers(10, 200))
+                    lv = [(0.0, 0.0, 0.0), (0.0, 0.0, 1e6), (0.3, 0.05, 0.0), (0.0, 0.05, 40.0), (2.0, 0.0, 3e5), (0.0, 0.0, 0.0)][k % 6]
+                    inp = {'kind': 'given', 'traj': traj, 'n': n, 'tseed': int(r.integers(1, 2**31)), 'seed': int(r.integers(1, 2**31)),
+                           'theta': float([0.002, 0.05, 0.3, 0.9][k % 4]), 'freq': [100.0, 50.0, 10.0, 200.0, 1.0, 100][k % 6],
+                           'sg': lv[0], 'sa': lv[1], 'sm': lv[2], 'in_degrees': deg, 'normalized_mag': nrm,
+                           'qform': ['array', 'list', 'QuaternionArray', 'scaled'][k % 4], 'flip': k % 5 == 0, 'twice': k % 7 == 0}
+                    if k % 3 == 0:
+                        inp['mref'] = (r.standard_normal(3) * 10 ** r.uniform(-1, 4)).tolist()
+                        inp['gref'] = (r.standard_normal(3) * 9.8).tolist()
+                    if k % 11 == 0:
+                        inp['mref'] = [0.5, 0.5, 0.5]; inp['sm'] = 0.0     # ptp of a stationary identity trajectory is 0 here
+                    ctx.check('sensors', inp, sens_call(inp),
+                              nontrivial_key=None if traj == 'stationary' else ('given', traj, deg, nrm, inp['seed']))
+    for rep in range(6 * scale):
+        for deg in (False, True, None):
+            for nrm in (False, True):
+                k += 1
+                lv = [(0.0, 0.0, 0.0), (0.0, 0.0, 1e6), (None, None, None), (0.0, 0.05, 1e6), (1.0, 0.0, 0.0), (0.0, None, 3e5)][k % 6]
+                inp = {'kind': 'random', 'n': sizes[k % len(sizes)] if k % 4 else int(r.integers(10, 400)), 'seed': int(r.integers(1, 2**31)),
+                       'freq': [100.0, 50.0, 100.0, 200.0][k % 4], 'sg': lv[0], 'sa': lv[1], 'sm': lv[2],
+                       'in_degrees': deg, 'normalized_mag': nrm if k % 5 else None, 'twice': k % 7 == 0}
+                ctx.check('sensors', inp, sens_call(inp), nontrivial_key=('random', deg, nrm, inp['seed']))
+    ctx.samples.append({'kind': 'search', 'oracle': 'sensors', 'input': WITNESS_MAG0})
